@@ -23,4 +23,37 @@ theorem C06_witness_prodQuot :
   · refine ⟨⟨fun x => if x = "a" then some (.int 3) else if x = "b" then some (.int 1) else some (.int 2), fun _ => 0⟩, ?_⟩
     decide
 
+/-! ## C backend -/
+
+/-- class `product-factor-quotient-unparenthesised`, C backend: the same text `a*b / c`; C reads `(a*b)/c` as well, and integer
+division truncates in C too: 1 vs 0 at a = 3, b = 1, c = 2 -/
+theorem C06_C_witness_prodQuot :
+    let w := E.prod false [.var "a", .quot false (.var "b") (.var "c")]
+    ∃ s, GC 0 (printC ccfg w 0) s ∧ ∃ env, evalS env s ≠ evalS env (den w) := by
+  refine ⟨.div (.mul (.var "a") (.var "b")) (.var "c"), ?_, ?_⟩
+  · have h : GC 5 ([CTok.id "a"] ++ [CTok.star] ++ [CTok.id "b"] ++ [CTok.slash] ++ [CTok.id "c"])
+        (.div (.mul (.var "a") (.var "b")) (.var "c")) :=
+      GC.div (GC.mul ((GC.ident "a").weaken (ℓ := 5) (by omega) (by omega)) ((GC.ident "b").weaken (ℓ := 6) (by omega) (by omega)))
+        ((GC.ident "c").weaken (ℓ := 6) (by omega) (by omega))
+    exact h.weaken (ℓ := 0) (by omega) (by omega)
+  · refine ⟨⟨fun x => if x = "a" then some (.int 3) else if x = "b" then some (.int 1) else some (.int 2), fun _ => 0⟩, ?_⟩
+    decide
+
+/-- class `c-double-minus-decrement`: `Product((-1, Product((-1, b))))` prints as the two tokens `--` `b`, which no level of the
+C expression grammar derives (in real C: the decrement operator) -/
+theorem C06_C_witness_doubleMinus :
+    let w := E.prod false [.pyint (-1), .prod false [.pyint (-1), .var "b"]]
+    printC ccfg w 0 = [CTok.decr, CTok.id "b"] ∧ ∀ ℓ s, ¬ GC ℓ (printC ccfg w 0) s := by
+  have h : printC ccfg (E.prod false [.pyint (-1), .prod false [.pyint (-1), .var "b"]]) 0 = [CTok.decr, CTok.id "b"] := by decide
+  refine ⟨h, fun ℓ s hd => ?_⟩
+  have := GC.no_decr hd
+  rw [h] at this
+  simp at this
+
+/-- the full statement for the C backend is false of the current code -/
+theorem C06_C_full_false : ¬ C06_C_full := by
+  intro h
+  obtain ⟨s, hs, _⟩ := h (E.prod false [.pyint (-1), .prod false [.pyint (-1), .var "b"]]) 0
+  exact C06_C_witness_doubleMinus.2 0 s hs
+
 end LokiModel.C06
